@@ -2,8 +2,9 @@
      <segment>* | <schedule token>*      segment = x<hex> | r<hh>*<count> | t<ignored label>     schedule = <n> | <n>*<k>
    The bytes are cut into '\n'-terminated lines (each kept run-length encoded, without its
    '\n') and the rest after the last '\n'; the model only needs the length of that rest.
-   Answer:  R=<OK|E<code>:<line>|P<tag>|FUEL>;cb=<bytes>,<calls>;nr=<reads>;ms=<max space>;T=<canonical symbol table>
-            ;;cap=<final capacity>;dropped=<lines discarded>;S=<what C10's spec says>;ST=<its table> *)
+   Answer:  R=<OK|E<code>:<line>|P<tag>|FUEL>;cb=<bytes>,<calls>;nr=<reads>;ms=<max space>;ev=<hash of the read/callback event sequence>,<events>;T=<canonical symbol table>
+            ;;cap=<final capacity>;dropped=<lines discarded>;S=<what C10's spec says>;ST=<its table>
+            ;X=<buffer transitions: grows,shifts,discard iterations,recoveries,zero reads,full-buffer reads>;K=<record kinds in the input>;EK=<kind of the rejected line> *)
 let parse_case (line : string) : (int * int) list * string list =
   let rec go toks runs =
     match toks with
@@ -99,6 +100,36 @@ let render_table (t : table) : string =
     funcs cfis (render_win (t_win_fd t)) (render_win (t_win_fpo t))
     (match t_url t with Some u -> "S" ^ str_of_rle u | None -> "N")
 
+(* kind of a line by its first bytes (for the input distribution only) *)
+let prefix_of (l : (int * int) list) : string =
+  let b = Buffer.create 24 in
+  (try List.iter (fun (x, c) ->
+       for _ = 1 to c do
+         if Buffer.length b >= 20 then raise Exit;
+         Buffer.add_char b (Char.chr (x land 255))
+       done) l with Exit -> ());
+  Buffer.contents b
+let starts s p = String.length s >= String.length p && String.sub s 0 (String.length p) = p
+let kind_of (l : (int * int) list) : string =
+  let s = prefix_of l in
+  if List.for_all (fun (x, _) -> x = 13) l then "blank"
+  else if starts s "MODULE " then "MODULE"
+  else if starts s "INFO URL " then "INFO_URL"
+  else if starts s "INFO CODE_ID " then "INFO_CODE_ID"
+  else if starts s "INFO " then "INFO_other"
+  else if starts s "FILE " then "FILE"
+  else if starts s "INLINE_ORIGIN " then "INLINE_ORIGIN"
+  else if starts s "INLINE " then "INLINE"
+  else if starts s "FUNC m " then "FUNC_m"
+  else if starts s "FUNC " then "FUNC"
+  else if starts s "PUBLIC m " then "PUBLIC_m"
+  else if starts s "PUBLIC " then "PUBLIC"
+  else if starts s "STACK WIN " then "STACK_WIN"
+  else if starts s "STACK CFI INIT " then "STACK_CFI_INIT"
+  else if starts s "STACK CFI " then "STACK_CFI"
+  else if String.length s > 0 && (match s.[0] with '0'..'9' | 'a'..'f' | 'A'..'F' -> true | _ -> false) then "line_record"
+  else "other"
+
 let cls k c l =
   match int_of_z k with
   | 0 -> "OK"
@@ -118,11 +149,21 @@ let () =
         let o = run_case (List.map conv lines) (z_of_int tail_len) (expand_sched stoks) in
         let t = match o_table o with Some t -> render_table t | None -> "-" in
         let st = match o_stable o with Some t -> render_table t | None -> "-" in
-        Printf.printf "R=%s;cb=%s,%s;nr=%s;ms=%s;T=%s;;cap=%s;dropped=%s;S=%s;ST=%s\n"
+        let zlines = List.map conv lines and ztail = z_of_int tail_len and zs = expand_sched stoks in
+        let tr = run_trace zlines ztail zs in
+        let kinds = List.sort_uniq compare (List.map kind_of lines @ (if tail_len > 0 then ["unterminated"] else [])) in
+        let ek = match first_rest zlines ztail zs with
+          | Some l -> kind_of (List.map (fun (b, c) -> (int_of_z b, int_of_z c)) l)
+          | None -> "-" in
+        Printf.printf "R=%s;cb=%s,%s;nr=%s;ms=%s;ev=%s,%s;T=%s;;cap=%s;dropped=%s;S=%s;ST=%s;X=%s,%s,%s,%s,%s,%s;K=%s;EK=%s\n"
           (cls (o_kind o) (o_code o) (o_line o))
-          (string_of_z (o_cb o)) (string_of_z (o_ncb o)) (string_of_z (o_nrd o)) (string_of_z (o_maxsp o)) t
+          (string_of_z (o_cb o)) (string_of_z (o_ncb o)) (string_of_z (o_nrd o)) (string_of_z (o_maxsp o))
+          (string_of_z (tr_hash tr)) (string_of_z (tr_events tr)) t
           (string_of_z (o_cap o)) (string_of_z (o_dropped o))
           (cls (o_skind o) (o_scode o) (o_sline o)) st
+          (string_of_z (tr_grows tr)) (string_of_z (tr_shifts tr)) (string_of_z (tr_discards tr))
+          (string_of_z (tr_recovered tr)) (string_of_z (tr_zero_reads tr)) (string_of_z (tr_full_reads tr))
+          (String.concat "," kinds) ek
       end
     done
   with End_of_file -> ()
